@@ -265,7 +265,12 @@ def main():
         ],
         "checks": checks,
         "not_applicable": na,
-        "notes": "fix: commits in /repo are listed in known_findings.txt as 'fixed:' lines.",
+        "notes": "fix: commits in /repo are listed in known_findings.txt as 'fixed:' lines. Exit codes of ./check: 0 every obligation "
+                 "discharged (known findings printed as KNOWN-FINDING lines); 1 a violation (VIOLATION line; with the failing input "
+                 "replayed on the real code, or ending in no-failing-input-found for a refuted condition or a finding of the effect / "
+                 "class-flow analyses); 2 undecided: solver unknown, a counter-model that did not replay, or a contract / shape "
+                 "obligation that no longer binds to the code as it is written and for which the bounded native search found no "
+                 "failing input (UNDECIDED lines; not a violation, see DESIGN 9.4c); 3 error of the checker itself.",
     }
     with open(os.path.join(VERIF, "MANIFEST.json"), "w") as f:
         json.dump(man, f, indent=1)
